@@ -157,6 +157,7 @@ let () =
    | "C14" -> run_generic [| "add_node"; "try_add_edge"; "try_update_edge"; "build_add_edge"; "build_update_edge"; "remove_edge"; "remove_node"; "is_valid_edge"; "raw_edge"; "range" |] all_tags AcyclicIO.run_case lines oc
    | "C06" -> run_generic [| "node"; "out"; "in"; "nb"; "nbin"; "erefs"; "nrefs"; "adj"; "_8"; "_9"; "consistent"; "adaptor"; "adaptor2" |] all_tags FullView.run_case lines oc
    | "C13" -> run_generic [| "n0"; "e0"; "n1"; "e1"; "_4"; "_5"; "_6"; "_7"; "_8"; "_9"; "iso"; "iso_matching"; "sub"; "sub_matching"; "sub_iter" |] all_tags IsoM.run_case lines oc
+   | "C13v" -> run_generic [| "n0"; "e0"; "n1"; "e1"; "_4"; "_5"; "_6"; "_7"; "_8"; "_9"; "iso"; "iso_matching"; "sub"; "sub_matching"; "sub_iter" |] all_tags Vf2M.vf2_run_case lines oc
    | "C03" -> run_generic gmap_ops all_tags GraphMapM.run_case lines oc
    | "C04" -> run_generic mg_ops mg_tags MatrixM.run_case lines oc
    | "C05csr" -> run_generic csr_ops csr_tags CsrM.run_case lines oc
